@@ -25,19 +25,21 @@ JOB_JITTER = 0.004
 class GenCommand(Command):
     """the command of the generated job pipelines: lin(inputs) + k after a PRNG-chosen (schedule dependent) duration"""
 
-    def __init__(self, step, k=0, nin=1):
+    def __init__(self, step, k=0, nin=1, fail_tag=None):
         super().__init__(step)
-        self.k, self.nin = k, nin
+        self.k, self.nin, self.fail_tag = k, nin, fail_tag
 
     @classmethod
     async def _load(cls, row, loading_context, step):
-        return cls(step=step, k=row["k"], nin=row["nin"])
+        return cls(step=step, k=row["k"], nin=row["nin"], fail_tag=row.get("fail_tag"))
 
     async def _save_additional_params(self, database):
-        return {"k": self.k, "nin": self.nin}
+        return {"k": self.k, "nin": self.nin, "fail_tag": self.fail_tag}
 
     async def execute(self, job):
         await asyncio.sleep(JOB_RNG.random() * JOB_JITTER)
+        if self.fail_tag is not None and get_tag(job.inputs.values()) == self.fail_tag:
+            return CommandOutput("injected job failure", Status.FAILED)
         vals = [job.inputs[f"i{j}"].value for j in range(self.nin)]
         return CommandOutput(apply_fn("lin", self.k, vals)[0], Status.COMPLETED)
 
